@@ -1608,7 +1608,45 @@ class SymEval:
                 an = 'call:%s' % norm_text(node)
                 self.defs.setdefault(an, ('call', f, args, kwargs, self_obj))
                 return self.A.call_atom(an)
+        if f.fq in self.PURE_SUMMARIES and self.hooks is not None and \
+                getattr(self.hooks, 'summaries', False):
+            try:
+                return self.call_function(f, args, kwargs, self_obj)
+            except RuntimeFailure:
+                raise
+            except Unsupported as e:
+                v = self._pure_summary(f, args, kwargs)
+                if v is None:
+                    raise
+                self.trace.append(('summary', f.fq, str(e)))
+                return v
         return self.call_function(f, args, kwargs, self_obj)
+
+    # Routines whose numerics the generic evaluator cannot follow (gathers under data-dependent
+    # masks) and which a rule that opts in (`hooks.summaries`) may read as an UNINTERPRETED PURE
+    # FUNCTION of their argument: row-wise, k outputs from the k inputs of the same row. Sound for
+    # equalities (same arguments, same atoms; C19 decides purity); an inequality against an
+    # expected expression is the same incompleteness as for every other function atom.
+    PURE_SUMMARIES = {'pyins.transform.ecef_to_lla': 3}
+
+    def _pure_summary(self, f, args, kwargs):
+        k = self.PURE_SUMMARIES[f.fq]
+        if kwargs or len(args) != 1 or not isinstance(args[0], SArray) or \
+                not hasattr(self.A, 'func'):
+            return None
+        a = args[0]
+        if not a.shape or a.shape[-1] != k or len(a.shape) > 2:
+            return None
+        out = SArray(a.shape, {}, None, a.sample)
+        rows = [()] if len(a.shape) == 1 else [(r,) for r in range(a.shape[0])]
+        try:
+            for r in rows:
+                xs = [self.rat(a.get(r + (j,))) for j in range(k)]
+                for j in range(k):
+                    out.entries[r + (j,)] = self.A.func('%s_%d' % (f.name, j), *xs)
+        except Unsupported:
+            return None
+        return out
 
     def scale_defs(self, small):
         """Replace the small parameter atoms by eps*atom in every definition."""
@@ -2077,6 +2115,16 @@ class SymEval:
             return UNK
         if q == 'builtins.bool':
             return self.truth(args[0])
+        if q == 'numpy.where' and len(args) == 3 and not kwargs and hasattr(A, 'func') and \
+                isinstance(args[0], Opaque) and \
+                all(isinstance(x, (SArray, Rat, int, float)) and not isinstance(x, bool)
+                    for x in args[1:]) and any(isinstance(x, SArray) for x in args[1:]):
+            # selection by a condition the analysis does not decide: every element is EITHER the
+            # one or the other - the uninterpreted `masked` function of the two (see store)
+            self._mask_id = getattr(self, '_mask_id', 0) + 1
+            tag = A.const(self._mask_id)
+            return self.emap(lambda x, y: x if A.eq(x, y) else A.func('masked', tag, y, x),
+                             args[1], args[2])
         return Opaque('extcall', q, args, kwargs)
 
     def _particular_sample(self, v, k):
